@@ -112,6 +112,13 @@ func main() {
 			}
 		}
 		fmt.Printf("generic ok steps=%d arities=1..12\n", total)
+	case "genericfixed":
+		// the fixed scenarios of the generic arm only (Map, Exchange, Resource vs. the core)
+		if err := genericFixed(); err != nil {
+			fmt.Println("GENERIC-ARM FAILURE:", err)
+			os.Exit(3)
+		}
+		fmt.Println("generic fixed scenarios ok")
 	case "puregen":
 		seed, _ := strconv.ParseUint(os.Args[2], 10, 64)
 		n, _ := strconv.Atoi(os.Args[3])
